@@ -467,7 +467,27 @@ def standard_proof_step(ctx, make_targets, props_files, search=None):
                                   res["failed"][:1], pf),
                               {"theorem": res["failed"], "file": pf,
                                "log": res["log"]}, found_input=False)
+    if all_ok and not ctx.quick and os.environ.get("VERIF_NO_COQCHK") != "1" \
+            and "coqchk" not in ctx.cov:
+        coqchk_props(ctx, props_files)
     return all_ok
+
+
+def coqchk_props(ctx, props_files, timeout=1500):
+    """Thorough tier: re-check the compiled Props files (and everything they
+    depend on) with the independent checker and record the axiom summary."""
+    for pf in props_files:
+        mod = "QV." + pf[:-2].replace("/", ".")
+        with Lock("coq"):
+            rc, out = sh(["timeout", str(timeout), "coqchk", "-silent", "-o", "-Q", ".", "QV", mod],
+                         timeout=timeout + 30, cwd=COQ)
+        m = re.search(r"CONTEXT SUMMARY.*", out, flags=re.S)
+        summary = re.sub(r"\s+", " ", m.group(0))[:1500] if m else out[-800:]
+        ctx.cov.setdefault("coqchk", []).append({"module": mod, "rc": rc, "summary": summary})
+        ctx.add_obligation("coqchk:" + mod, rc == 0)
+        if rc != 0:
+            ctx.violation("coqchk:" + pf, "rc=%d" % rc, "coqchk rejects %s" % mod,
+                          {"output": out[-2500:]}, found_input=False)
 
 
 def main(run_fn, pid, replay_fn=None):
